@@ -3,6 +3,7 @@
    (harness/cmd/extract walker): every consumer of dag.AncestorsWalker and every graph-mutating call. *)
 From Coq Require Import List String Arith Bool Lia.
 From Verif Require Import Walker WalkerP StreamLock StreamLockP WalkerSite WalkerSiteP WalkerSites.
+From Verif Require LockSites.
 Import ListNotations.
 
 (* the current tree: every consumer drains (deferred, or before every early exit), never touches the signal
@@ -48,3 +49,10 @@ Theorem C08_unguarded_stream_deadlocks :
   StreamLock.reach 2 false 1 deadlock_state /\ ~ StreamLock.final deadlock_state /\ forall s', ~ StreamLock.step 2 false deadlock_state s'.
 Proof. exact unguarded_deadlock. Qed.
 Print Assumptions C08_unguarded_stream_deadlocks.
+
+(* No function of the ledger, the cache or the gossiper can leave with a lock still held: every lock taken without a
+   deferred unlock is released on every way out (may-analysis of harness/cmd/extract over /repo's current source; the
+   table lists the exits on which a lock may still be held). A lock that is never released wedges every later caller. *)
+Theorem C08_no_lock_left_held : LockSites.lock_leaks = [].
+Proof. vm_compute. reflexivity. Qed.
+Print Assumptions C08_no_lock_left_held.
